@@ -52,6 +52,13 @@ def main():
     a = ap.parse_args()
     bad = 0
     t0 = time.time()
+    if not a.k:
+        # wiring guard: a contract that `serves` a property must be generated under it
+        p = subprocess.run([sys.executable, os.path.join(HERE, 'tools', 'audit_units.py')], stdout=subprocess.PIPE, stderr=subprocess.STDOUT, text=True)
+        print(p.stdout.strip().splitlines()[-1] if p.stdout.strip() else 'audit: no output')
+        if p.returncode != 0:
+            bad += 1
+            print(p.stdout)
     for name, prop, only, path, pat, rep in MUTANTS:
         if a.k and a.k not in name and a.k != prop:
             continue
